@@ -38,6 +38,14 @@ NAME_FAMILIES = {
                          "struct Ov { void m(); void m(int); static int s(); Ov(); Ov(int); ~Ov(); };\n"
                          "template<class T, class U> struct Tm { T t; U *u; }; struct UsesTm { Tm<int, float> a; Tm<char, Tm<int,int> > b; };\n"
                          "struct Nest { struct In { int i; } in; enum E { A } e; };\n"),
+    # every lazily emitted helper type is needed from inside a named namespace only
+    "cxx-helpers-in-namespace": ("c++", "namespace wire { namespace v1 { struct Packet { unsigned len; unsigned char payload[]; }; } }\n"
+                                        "namespace bits { struct Flags { unsigned a:3; unsigned b:9; }; }\n"
+                                        "namespace un { union U { int i; float f; }; struct HU { U u; }; }\n"
+                                        "namespace cx { struct Z { double _Complex c; }; }\n"
+                                        "namespace big { struct Blob { char raw[40]; }; struct __attribute__((aligned(64))) Al { int i; }; }\n"),
+    "cxx-floats-via-bases": ("c++", "struct Vec2 { float x; float y; };\nstruct Tagged : Vec2 { int tag; };\nstruct Tagged2 : Tagged { char c; };\n"
+                                    "struct Scene { Tagged2 items[4]; };\nstruct IntBase { int i; };\nstruct IntDer : IntBase { short s; };\n"),
     "cxx-unused-tparams": ("c++", "template<class T> struct Unused { int x; };\ntemplate<class T, class U> struct Half { T t; };\n"
                                   "struct H { Unused<float> u; Half<int, double> h; };\ntemplate<class T> using Alias = Half<T, int>;\nstruct HA { Alias<char> a; };\n"),
 }
@@ -127,7 +135,10 @@ def compile_all(res, w, entries, label):
             codes, first = classify(m1)
             d = dict(es[k][1])
             d["rustc"] = m1[-1500:]
-            res.violation("%s:%s" % (es[k][0], codes), d)
+            # one module can show several independent defects: one violation per error code, so that
+            # each is matched (or not) on its own
+            for code in codes.split("+"):
+                res.violation("%s:%s" % (es[k][0], code), d)
     return n
 
 
